@@ -55,7 +55,7 @@ def run(F, R, ctx):
     # ---- b, c
     ms = r"\{impl Heap\}::mark_and_sweep_new$"
     callers = [f for f in F.fns.values() if f.call_blocks(ms) and f.name.startswith("steel::values::closed::")]
-    R.floor("C19.b", "callers of mark_and_sweep_new", len(callers), 3)
+    R.floor("C19.b", "callers of mark_and_sweep_new", len(callers), 1)
     for fn in callers:
         dom = fn.dominators()
         for b in fn.call_blocks(ms):
@@ -80,6 +80,12 @@ def run(F, R, ctx):
                    "%s does not recompute both free lists' alloc_count after the full mark (found %d assignments, %d "
                    "recount calls): freed slots are never handed out again" % (fn.short(), len(wr), len(rc)),
                    fn.loc(fn.blocks[b]["line"]), sample={"assignments": len(wr), "recounts": len(rc)})
+    for nm in ("allocate", "allocate_vector", "allocate_vector_iter", "collection"):
+        fn = F.one(r"^steel::values::closed::\{impl Heap\}::%s$" % nm)
+        p = F.reaches(fn.name, ms, maxdepth=2, stop=lambda n: "{impl Heap}" not in n)
+        R.inst("C19.b", "Heap::%s can run a full mark" % nm, p is not None,
+               "Heap::%s no longer reaches Heap::mark_and_sweep_new: storage allocated through it is only ever reclaimed "
+               "by the weak (handle-count) collection, never when it is merely unreachable" % nm, fn.loc(), sample=True)
     # ---- d
     tok = F.adt("RootToken")
     R.inst("C19.d", "RootToken has a destructor", bool(tok["drop"]),
@@ -96,12 +102,18 @@ def run(F, R, ctx):
                "%s implements %s: a copied token frees the root while the other copy is still alive (or never frees it)" % (
                    ty, ",".join(i["trait"] for i in cl)), "", sample=True)
     # ---- e
-    for nm in ("value_collection", "vector_collection", "allocate_vector_iter"):
+    mrx = r"steel_rc::\{impl QueueHandle\}::run_explicit_merge$"
+    for nm in ("allocate", "allocate_vector", "allocate_vector_iter", "collection"):
         fn = F.one(r"^steel::values::closed::\{impl Heap\}::%s$" % nm)
-        merges = fn.call_blocks(r"steel_rc::\{impl QueueHandle\}::run_explicit_merge$")
+        p = F.reaches(fn.name, mrx, maxdepth=2, stop=lambda n: "{impl Heap}" not in n)
+        R.inst("C19.e", "Heap::%s merges deferred decrements" % nm, p is not None,
+               "Heap::%s no longer reaches steel_rc::QueueHandle::run_explicit_merge: decrements queued by other threads "
+               "keep dead values alive across collections" % nm, fn.loc(), sample=True)
+    for fn in [f for f in F.fns.values() if f.name.startswith("steel::values::closed::{impl Heap}") and f.call_blocks(mrx)]:
+        merges = fn.call_blocks(mrx)
         dom = fn.dominators()
-        firsts = [b for b in fn.call_blocks(r"FreeList<T>\}::(weak_collection|mark_all_unreachable|percent_full)$")]
-        ok = bool(merges) and all(any(m in dom[b] for m in merges) for b in firsts)
-        R.inst("C19.e", "Heap::%s merges deferred decrements first" % nm, ok,
-               "Heap::%s does not call steel_rc::QueueHandle::run_explicit_merge before deciding to collect: decrements "
-               "queued by other threads keep dead values alive across collections" % nm, fn.loc(), sample=True)
+        firsts = fn.call_blocks(r"FreeList<T>\}::(weak_collection|mark_all_unreachable)$")
+        ok = all(any(m in dom[b] for m in merges) for b in firsts)
+        R.inst("C19.e", "%s / merge precedes the collection decision" % fn.short(), ok,
+               "%s runs a weak/full collection on a path that has not merged the deferred decrements first" % fn.short(),
+               fn.loc(), sample=True)
